@@ -177,7 +177,10 @@ func (p *Proxy) handleRangeRequest(r responder.Responder, req *http.Request, cac
 		} else {
 			// IfRange is Time
 			timeIfRange := ifRange.ForceUnwrapRight()
-			if timeIfRange.Before(cached.Metadata.Object.LastModified) {
+			// A date validator matches only the exact Last-Modified (RFC 9110, 13.1.5), at the one-second resolution
+			// of an HTTP date. A later date names a version the store does not hold: slicing the stored one for it
+			// would hand the client part of another version.
+			if !timeIfRange.Equal(cached.Metadata.Object.LastModified.Truncate(time.Second)) {
 				slog.Info("If-Range does not match cached Last-Modified. Sending full 200 response.", "url", req.URL, "key", key)
 				return ErrIfRangeMismatch
 			}
